@@ -66,6 +66,12 @@ def battery(t, data_dir, resource_xml, scratch, reverse=False):
     from wn.validate import validate
     from wn.morphy import Morphy
     t.add('lexicons', wn.lexicons())
+    for lx in wn.lexicons():
+        t.add(f'{canon(lx)} links', (lx.requires(), lx.extends(), lx.extensions(depth=-1), lx.metadata(), lx.modified()))
+        t.add(f'{canon(lx)} describe', lx.describe())
+    t.add('ilis', wn.ilis())
+    for st in ('presupposed', 'proposed', 'active'):
+        t.add(f'ilis({st})', wn.ilis(status=st))
     # ---- the same synsets under Wordnets that differ in their expand lexicons (what they inherit differs);
     # done first, before anything else has looked at these synsets
     if any(lx.id == 'g9' for lx in wn.lexicons()):
@@ -124,6 +130,8 @@ def battery(t, data_dir, resource_xml, scratch, reverse=False):
                 (f'{tag} {k}.synsets', x.synsets),
                 (f'{tag} {k}.derived_words', x.derived_words),
                 (f'{tag} {k}.metadata', x.metadata),
+                (f'{tag} {k}.translate', lambda x=x: x.translate()),
+                (f'{tag} {k}.pronunciations', lambda x=x: [[(p_.value, p_.variety, p_.notation, p_.phonemic, p_.audio) for p_ in f.pronunciations()] for f in x.forms()]),
                 (f'{tag} {k} words({lem!r})', lambda lem=lem: w.words(lem)),
                 (f'{tag} {k} synsets({lem!r})', lambda lem=lem: w.synsets(lem)),
             ])
@@ -140,6 +148,9 @@ def battery(t, data_dir, resource_xml, scratch, reverse=False):
                 (f'{tag} {k}.get_related(again)', x.get_related),
                 (f'{tag} {k}.frames', x.frames),
                 (f'{tag} {k}.examples', x.examples),
+                (f'{tag} {k}.relation_paths', lambda x=x: list(x.relation_paths())),
+                (f'{tag} {k}.translate', lambda x=x: x.translate()),
+                (f'{tag} {k}.flags', lambda x=x: (x.adjposition(), x.lexicalized())),
                 (f'{tag} {k}.counts', lambda x=x: [(int(c), c.metadata()) for c in x.counts()]),
                 (f'{tag} {k}.metadata', x.metadata),
             ])
@@ -162,6 +173,11 @@ def battery(t, data_dir, resource_xml, scratch, reverse=False):
                 (f'{tag} {k}.hypernym_paths(sr)', lambda x=x: x.hypernym_paths(simulate_root=True)),
                 (f'{tag} {k}.depths', lambda x=x: (x.min_depth(), x.max_depth())),
                 (f'{tag} {k}.translate', x.translate),
+                (f'{tag} {k}.lemmas', x.lemmas),
+                (f'{tag} {k}.hyponyms', x.hyponyms),
+                (f'{tag} {k}.holonyms+meronyms', lambda x=x: (x.holonyms(), x.meronyms())),
+                (f'{tag} {k}.relation_paths', lambda x=x: list(x.relation_paths('hypernym', 'instance_hypernym', 'similar'))),
+                (f'{tag} {k}.attrs', lambda x=x: (x.pos, x.ili, x.lexfile(), x.lexicalized(), x.metadata())),
             ])
         # taxonomy / IC / similarity on the graph lexicons (hypernymy stays inside one part of speech there)
         if sel and len(sel) == 1 and sel[0].startswith('g') and not sel[0].startswith('g7') and len(synsets) <= 12:
